@@ -16,9 +16,9 @@ import common
 import gen_c14
 import runs
 
-THEOREMS = ['C14_tie_formulas', 'C14_tie_structure', 'C14_range', 'C14_up_iff', 'C14_mean', 'C14_mean_grid',
-            'C14_noDup', 'C14_zero', 'C14_nonneg', 'C14_order', 'C14_count', 'C14_aligned', 'C14_weights']
-MODULE = 'NautilusVerif.Properties.C14'
+THEOREMS = ['C14_range', 'C14_up_iff', 'C14_mean', 'C14_mean_grid', 'C14_noDup', 'C14_zero', 'C14_nonneg', 'C14_order', 'C14_count', 'C14_aligned', 'C14_weights']
+TIE_THEOREMS = ['C14_tie_formulas', 'C14_tie_structure']
+MODULE = [('NautilusVerif.Properties.C14', THEOREMS), ('NautilusVerif.Properties.C14Tie', TIE_THEOREMS)]
 FILES = ['nautilus/sampler.py']
 
 
@@ -45,9 +45,25 @@ def frac(x):
     return str(f.numerator) if f.denominator == 1 else '%d/%d' % (f.numerator, f.denominator)
 
 
-def synthetic_sampler(rng, blobs=True):
+def dict_prior(x):
+    return {'p': x[..., 0], 'q': x[..., 1]}
+
+
+def synthetic_sampler(rng, blobs=True, prior_kind='identity', offset=0.0):
     """a Sampler whose stored arrays are set directly (posterior() only reads them)"""
-    s, _ = runs.make_sampler(n_dim=2, n_live=50, seed=1)
+    if prior_kind == 'Prior':
+        from nautilus import Prior
+        pr = Prior()
+        pr.add_parameter('a', dist=(-1.0, 1.0))
+        pr.add_parameter('f', dist=2.5)
+        pr.add_parameter('b', dist=(0.0, 4.0))
+        pr.add_parameter('c', dist='a')
+        s, _ = runs.make_sampler(n_live=50, seed=1, prior=pr)
+    elif prior_kind == 'dictfn':
+        s, _ = runs.make_sampler(n_dim=2, n_live=50, seed=1, prior=dict_prior, pass_dict=True)
+        s.vectorized = True
+    else:
+        s, _ = runs.make_sampler(n_dim=2, n_live=50, seed=1)
     n_shell = int(rng.integers(1, 5))
     s.points, s.log_l, s.blobs = [], [], []
     ns = []
@@ -59,6 +75,7 @@ def synthetic_sampler(rng, blobs=True):
         mode = rng.integers(0, 4)
         ll = rng.normal(0, 3, n) if mode == 0 else (rng.normal(0, 0.05, n) if mode == 1 else
                                                      np.round(rng.normal(0, 2, n)) if mode == 2 else rng.normal(0, 30, n))
+        ll = ll + offset                        # the result must not depend on the likelihood scale
         ll[rng.random(n) < 0.15] = -np.inf      # zero-weight samples
         s.log_l.append(ll)
         s.blobs.append(np.arange(serial, serial + n, dtype=np.int64))
@@ -75,9 +92,9 @@ def synthetic_sampler(rng, blobs=True):
         s.blobs = None
     # make sure at least one visible sample has positive weight
     if discard:
-        s.log_l[0][-1] = 0.0
+        s.log_l[0][-1] = offset
     else:
-        s.log_l[0][0] = 0.0
+        s.log_l[0][0] = offset
     return s
 
 
@@ -90,6 +107,25 @@ def visible(s):
     ll = np.concatenate([p[a:] for p, a in zip(s.log_l, start)])
     bl = None if s.blobs is None else np.concatenate([p[a:] for p, a in zip(s.blobs, start)])
     return pts, ll, bl
+
+
+def take_rows(points, rows):
+    if isinstance(points, dict):
+        return {k: np.asarray(v)[rows] for k, v in points.items()}
+    return np.asarray(points)[rows]
+
+
+def same_points(a, b):
+    if isinstance(a, dict) or isinstance(b, dict):
+        return isinstance(a, dict) and isinstance(b, dict) and a.keys() == b.keys() and \
+            all(np.array_equal(np.asarray(a[k]), np.asarray(b[k])) for k in a)
+    return np.array_equal(a, b)
+
+
+def n_rows(points):
+    if isinstance(points, dict):
+        return len(next(iter(points.values()))) if points else 0
+    return len(points)
 
 
 def scripted_u(rng, r):
@@ -105,11 +141,14 @@ def scripted_u(rng, r):
     return u
 
 
-def one_case(chk, s, boost, rng, label):
+AMBIG = 1e-9   # relative weights are floats: multiplicities are judged with this tolerance on r and on u - fract r
+
+
+def one_case(chk, s, boost, rng, label, as_dict=None):
     """returns (request line, observed multiplicities, sample dict)"""
     pts, ll, bl = visible(s)
     before = runs.snapshot(s)
-    w_before = s.posterior(return_blobs=bl is not None)
+    w_before = s.posterior(return_blobs=bl is not None, return_as_dict=as_dict)
     log_w_raw = np.repeat(s.shell_log_v - np.log(np.maximum(s.shell_n, 1)), s.shell_n) + ll
     with np.errstate(all='ignore'):
         r = np.exp(log_w_raw - np.amax(log_w_raw)) * boost
@@ -122,14 +161,22 @@ def one_case(chk, s, boost, rng, label):
     u = scripted_u(rng, r)
     real_rng = s.rng
     s.rng = ScriptRng(u)
+    info = {'case': label, 'boost': boost, 'n': len(r), 'as_dict': as_dict}
     try:
-        out = s.posterior(equal_weight=True, equal_weight_boost=boost, return_blobs=bl is not None)
+        with np.errstate(all='ignore'):
+            out = s.posterior(equal_weight=True, equal_weight_boost=boost, return_blobs=bl is not None,
+                              return_as_dict=as_dict)
+    except Exception as e:    # the call must not raise on a sampler that holds positive-weight samples
+        chk.fail('equal-weight-posterior-raises:' + type(e).__name__,
+                 'posterior(equal_weight=True, equal_weight_boost=%r) raised %s: %s' % (boost, type(e).__name__, str(e)[:100]),
+                 {'input': dict(info, log_l_offset=label)})
+        return None
     finally:
         n_calls = s.rng.calls
         s.rng = real_rng
     p_eq, lw_eq, ll_eq = out[0], out[1], out[2]
     b_eq = out[3] if bl is not None else None
-    info = {'case': label, 'boost': boost, 'n': len(r)}
+    info = {'case': label, 'boost': boost, 'n': len(r), 'as_dict': as_dict}
 
     def bad(key, what, extra=None):
         d = {'input': dict(info, r=[float(x).hex() for x in r[:50]], u=[float(x).hex() for x in u[:50]])}
@@ -144,21 +191,33 @@ def one_case(chk, s, boost, rng, label):
         idx = {int(v): j for j, v in enumerate(serial0)}
         rows = [idx.get(int(v), -1) for v in b_eq]
     else:
-        key = {pts[j].tobytes(): j for j in range(len(pts))}
-        rows = [key.get(p_eq[i].tobytes(), -1) for i in range(len(p_eq))]
+        ref = w_before[0]
+        if isinstance(ref, dict):
+            ref = np.stack([np.asarray(ref[k], dtype=float) for k in sorted(ref)], axis=1)
+            got = np.stack([np.asarray(p_eq[k], dtype=float) for k in sorted(p_eq)], axis=1) if n_rows(p_eq) else \
+                np.zeros((0, ref.shape[1]))
+        else:
+            got = np.asarray(p_eq)
+        key = {np.ascontiguousarray(ref[j]).tobytes(): j for j in range(len(ref))}
+        rows = [key.get(np.ascontiguousarray(got[i]).tobytes(), -1) for i in range(len(got))]
     rows = np.array(rows, dtype=int)
     if np.any(rows < 0):
         bad('unknown-row', 'a returned row is not one of the weighted samples')
         rows = rows[rows >= 0]
     mult = np.bincount(rows, minlength=len(r)) if len(rows) else np.zeros(len(r), dtype=int)
-    fl = np.floor(r).astype(int)
-    wrong = np.flatnonzero((mult != fl) & (mult != fl + 1))
+    # the property itself, judged with a tolerance on the float value of r (exactness is the correspondence's job)
+    lo = np.floor(r * (1 - AMBIG) - AMBIG).astype(int)
+    hi = np.floor(r * (1 + AMBIG) + AMBIG).astype(int) + 1
+    wrong = np.flatnonzero((mult < lo) | (mult > hi))
     if len(wrong):
         j = int(wrong[0])
         bad('multiplicity-not-floor-or-floor+1', 'sample %d with relative weight*boost r=%r was returned %d times' % (
             j, float(r[j]), int(mult[j])), {'j': j, 'r': float(r[j]), 'mult': int(mult[j])})
-    exp_up = (u < r - np.floor(r))
-    wrong = np.flatnonzero(mult != fl + exp_up.astype(int))
+    fl = np.floor(r).astype(int)
+    f = r - np.floor(r)
+    clear = (np.abs(u - f) > AMBIG) & (f > AMBIG) & (f < 1 - AMBIG)     # away from every decision boundary
+    exp_up = (u < f)
+    wrong = np.flatnonzero(clear & (mult != fl + exp_up.astype(int)))
     if len(wrong):
         j = int(wrong[0])
         bad('multiplicity-differs-from-stochastic-rounding',
@@ -171,17 +230,19 @@ def one_case(chk, s, boost, rng, label):
         bad('zero-weight-sample-returned', 'a sample with log-likelihood -inf appears in the equal-weight posterior')
     if len(rows) and np.any(np.diff(rows) < 0):
         bad('order-not-preserved', 'rows of the equal-weight posterior are not in the original order')
-    if len(rows) and (not np.array_equal(p_eq, pts[rows]) or not np.array_equal(ll_eq, ll[rows])):
+    if len(rows) and (not same_points(p_eq, take_rows(w_before[0], rows)) or not np.array_equal(ll_eq, ll[rows])):
         bad('rows-misaligned', 'a repeated row does not carry the point / log-likelihood of its sample')
-    if len(lw_eq) != len(p_eq) or len(ll_eq) != len(p_eq) or (b_eq is not None and len(b_eq) != len(p_eq)):
-        bad('lengths-differ', 'returned arrays have different lengths')
+    if len(lw_eq) != n_rows(p_eq) or len(ll_eq) != n_rows(p_eq) or (b_eq is not None and len(b_eq) != n_rows(p_eq)):
+        bad('lengths-differ', 'returned arrays have different lengths: %d points, %d weights, %d likelihoods, %s blobs' % (
+            n_rows(p_eq), len(lw_eq), len(ll_eq), None if b_eq is None else len(b_eq)))
     if len(lw_eq):
         if not np.all(lw_eq == lw_eq[0]) or abs(float(logsumexp(lw_eq))) > 1e-9 or \
                 abs(float(lw_eq[0]) + np.log(len(lw_eq))) > 1e-9:
             bad('weights-not-equal-normalised', 'returned log-weights are not all equal to -log(N)')
     after = runs.snapshot(s)
-    w_after = s.posterior(return_blobs=bl is not None)
-    if after != before or any(not np.array_equal(a, b, equal_nan=True) for a, b in zip(w_before, w_after)):
+    w_after = s.posterior(return_blobs=bl is not None, return_as_dict=as_dict)
+    if after != before or not same_points(w_before[0], w_after[0]) or \
+            any(not np.array_equal(a, b, equal_nan=True) for a, b in zip(w_before[1:], w_after[1:])):
         bad('weighted-posterior-changed', 'the stored state / weighted posterior differs after an equal-weight call')
     req = 'resample ' + ' '.join(frac(a) + ' ' + frac(b) for a, b in zip(r, u))
     nontrivial = int(np.sum((u == r - np.floor(r)) | (u == np.nextafter(r - np.floor(r), -1.0))))
@@ -195,14 +256,17 @@ def run(chk):
     chk.extra['translator'] = notes
     chk.prove(MODULE, THEOREMS, {'NautilusVerif/Generated/C14.lean': text})
     if chk.tier == 'thorough':
-        chk.leanchecker([MODULE])
+        chk.leanchecker([m for m, _ in MODULE])
     n_syn = 150 if chk.tier == 'quick' else 2000
     boosts = [0.1, 0.5, 1.0, float(np.nextafter(1.0, 2.0)), 3.0, 10.5, 0.999]
     reqs, mults, infos = [], [], []
     nontriv = 0
     samplers = []
+    offsets = [0.0, 0.0, 700.0, -700.0, -735.0, -800.0, 1e4]
     for i in range(n_syn):
-        samplers.append(('synthetic-%d' % i, synthetic_sampler(rng, blobs=(i % 5 != 0))))
+        kind = ['identity', 'identity', 'Prior', 'dictfn'][i % 4]
+        samplers.append(('synthetic-%d-%s-offset=%g' % (i, kind, offsets[i % 7]),
+                         synthetic_sampler(rng, blobs=(i % 5 != 0), prior_kind=kind, offset=offsets[i % 7])))
     # states produced by real runs (with -inf samples, with and without discarded exploration)
     for j, (kind, discard) in enumerate([('halfspace', False), ('gauss', True)] if chk.tier == 'quick' else
                                         [('halfspace', False), ('gauss', True), ('bimodal', False), ('steps', True)]):
@@ -212,7 +276,13 @@ def run(chk):
         samplers.append(('run-%s-discard=%s' % (kind, discard), s))
     for label, s in samplers:
         for b in ([boosts[int(rng.integers(0, len(boosts)))]] if label.startswith('synthetic') else boosts):
-            req, mult, info, nt = one_case(chk, s, b, rng, label)
+            as_dict = None
+            if '-Prior-' in label:
+                as_dict = bool(rng.integers(0, 2))
+            res = one_case(chk, s, b, rng, label, as_dict=as_dict)
+            if res is None:
+                continue
+            req, mult, info, nt = res
             reqs.append(req)
             mults.append(mult)
             infos.append(info)
@@ -239,7 +309,8 @@ def run(chk):
         keys = {f['key'] for f in chk.failing}
         chk.correspondence_broken('posterior(equal_weight) vs Resample.repsAll', dis[:5],
                                   accounted=bool(keys & {'multiplicity-differs-from-stochastic-rounding',
-                                                         'multiplicity-not-floor-or-floor+1'}))
+                                                         'multiplicity-not-floor-or-floor+1', 'lengths-differ',
+                                                         'unknown-row', 'rows-misaligned'}))
     chk.assumptions += ['Generator.random returns uniform doubles k/2^53 in [0,1)',
                         'for r >= 0, floor(r) and r - floor(r) are exact in binary64 (so the float test is the exact test)']
     chk.trusted += ['harness/gen_c14.py', 'harness/c14.py']
